@@ -306,7 +306,7 @@ Proof. apply map_length. Qed.
 Theorem step_within cfg st o st' :
   0 <= sub_limit cfg -> AllWithin cfg st -> step cfg st o = SOkS st' -> AllWithin cfg st'.
 Proof.
-  intros Hl HA. destruct o as [c|c m lim rows prep cq add auth|c|c sid|k|c]; simpl.
+  intros Hl HA. destruct o as [c|c m lim rows prep cq add auth|c|c|c sid|k|c]; simpl.
   - destruct (get_conn c (r_conns st)); [discriminate|]. intros E; inversion E; subst.
     unfold AllWithin. simpl. apply AllWithin_set; [assumption|]. right. simpl. lia.
   - match goal with |- context [if ?b then drain_pending st else st] =>
@@ -321,6 +321,9 @@ Proof.
     + apply AllWithin_set; [assumption|]. right. simpl. lia.
   - destruct (get_conn c (r_conns st)) as [x|]; [|discriminate]. destruct (c_open x); [|discriminate].
     intros E; inversion E; subst; assumption.
+  - destruct (get_conn c (r_conns st)) as [x|]; [|discriminate]. destruct (c_open x); [|discriminate].
+    intros E; inversion E; subst. unfold AllWithin, drop_conn. simpl.
+    apply AllWithin_set; [assumption|]. right. simpl. lia.
   - destruct (get_conn c (r_conns st)) as [x|] eqn:Ex; [|discriminate].
     destruct (get_sub sid (c_subs x)) as [sb|]; [|discriminate].
     destruct (sb_running sb) eqn:Er; [|discriminate].
